@@ -64,3 +64,8 @@ def run(R):
         G = random_cnf(rnd, names)
         ws = rnd.sample(W, 6)
         tab(G, 'cnf%d' % i, ws); acc(G, 'cnf%d' % i, ws)
+    W3 = sorted(ref.words_upto('abd', 3), key=lambda w: (len(w), w)); i = 0
+    while not R.out_of_time() and i < (120 if R.tier == 'quick' else 1500):       # unit-rule-rich grammars (unit cycles through the start variable)
+        i += 1
+        acc(E.random_unit_cfg(rnd), 'u%d' % i, rnd.sample(W3, 10))
+    R.bounds['cfg-unit'] = 'seeded random grammars (2-4 variables) in which every variable has 1-3 unit alternatives in random order next to terminal / binary alternatives x 10 words of length <= 3 over {a,b,d}'
